@@ -49,6 +49,12 @@ pub const MUST_REJECT_ATTRS: &[(&str, &str)] = &[
     ("#[regex(\"(a|)\")]", "matches the empty string"),
     ("#[regex(\"\")]", "matches the empty string"),
     ("#[token(\"\")]", "matches the empty string"),
+    ("#[token(\"\", ignore(case))]", "matches the empty string (case-insensitive empty token)"),
+    ("#[token(b\"\", ignore(case))]", "matches the empty string (case-insensitive empty byte-string token)"),
+    ("#[token(b\"\")]", "matches the empty string (empty byte-string token)"),
+    ("#[token(\"\", ignore(case), priority = 3)]", "matches the empty string (case-insensitive empty token, explicit priority)"),
+    ("#[regex(\"\", ignore(case))]", "matches the empty string"),
+    ("#[regex(\"(?i)\")]", "matches the empty string (only a flag item)"),
     ("#[regex(\"b?c?\")]", "matches the empty string"),
     ("#[regex(\"(?:ab)*\")]", "matches the empty string"),
     ("#[regex(\"x{0,3}\")]", "matches the empty string"),
